@@ -113,6 +113,8 @@ class C04(Prop):
                 c = g.gfloat_bool(rng.range(0, 2))
             elif rng.chance(1, 10):
                 c = poison_order(rng, len(STRINGS))
+            elif rng.chance(1, 12):
+                c = absorbing_operands(rng, len(STRINGS))
             probes = [g.gint(rng.range(0, 3)) for _ in range(rng.range(0, 4))]
             if not cond.has_big_range(c) and not any(cond.has_big_range(p) for p in probes):
                 break
@@ -328,6 +330,29 @@ def poison_order(rng, nvars):
     if r == 2:
         return (rng.choice(["and", "or"]), [c, rng.choice(P + D)])
     return c
+
+
+def absorbing_operands(rng, nvars):
+    """An undefined operand next to the neutral or absorbing constant of its operator (`0 * u`, `u & 0`, `u | -1`,
+    `u % 1`, `u \\ 1`, `u >> 64`, `u - u`, `u ^ u`, `u + 0`): undefined is contagious, the result is undefined
+    whatever algebra says, and `defined` / `not` / comparisons must see that."""
+    v = rng.below(nvars)
+    u = rng.choice([("readint", "uint8", ("int", 1000)), ("offset", v, ("int", rng.choice([2, 3, 9]))), ("length", v, ("int", 9)),
+                    ("bin", "div", ("int", 1), ("int", 0)), ("readint", "int32", ("filesize",))])
+    k = rng.below(10)
+    e = [("bin", "mul", ("int", 0), u), ("bin", "mul", u, ("int", 0)), ("bin", "band", u, ("int", 0)), ("bin", "bor", u, ("int", -1)),
+         ("bin", "mod", u, ("int", 1)), ("bin", "shr", u, ("int", 64)), ("bin", "sub", u, u), ("bin", "xor", u, u),
+         ("bin", "mul", u, ("int", 1)), ("bin", "shl", ("int", 0), u)][k]
+    r = rng.below(5)
+    if r == 0:
+        return ("defined", e)
+    if r == 1:
+        return ("un", "not", ("bin", "eq", e, ("int", rng.choice([0, 1]))))
+    if r == 2:
+        return ("or", [("bin", "eq", e, ("int", 0)), ("bin", "neq", e, ("int", 0))])
+    if r == 3:
+        return ("un", "not", ("defined", ("bin", "add", e, ("int", 1))))
+    return ("bin", rng.choice(["eq", "ge", "le"]), e, ("int", 0))
 
 
 def regex_match(rng, nvars):
